@@ -223,6 +223,12 @@ def cr_steps(case, ctx):
         uri = fp + "::" + pstr(call["dest"]) if (call["dest"] or call.get("explicit_root")) else fp
         if call.get("noslash") and call["dest"]:
             uri = fp + "::" + "/".join(call["dest"])
+        if call.get("mark_mcool"):
+            # the file is (by now) a multi-resolution file: its root carries the MCOOL format attribute
+            import h5py
+            with h5py.File(fp, "r+") as f:
+                f.attrs["format"] = "HDF5::MCOOL"
+                f.attrs["format-version"] = 2
         kind = call["fault"]["kind"]
         cm = patched(*CRASHES[kind]) if kind in CRASHES else contextlib.nullcontext()
         kw = {}
